@@ -9,7 +9,8 @@
 (* is not given the client's realm and cannot compare crealm).             *)
 (***************************************************************************)
 EXTENDS Integers, Sequences, FiniteSets, TLC
-Domain == [ nonce    |-> {"same", "+1", "-1", "earlier"},      \* earlier: the KDC's reply to a previous request, replayed
+Domain == [ nonce    |-> {"same", "+1", "-1", "earlier",       \* earlier: the KDC's reply to a previous request, replayed
+                          "+2^32", "-2^32"},                     \* the same low 32 bits (the nonce is an INTEGER, not a 32-bit word)
             cname    |-> {"same", "differs", "regrouped"},       \* regrouped: another name that prints alike (components a, b sent as one component "a/b")
             crealm   |-> {"same", "differs"},
             sname    |-> {"same", "differs", "regrouped"},       \* server name inside the encrypted part
